@@ -41,7 +41,7 @@ pub fn catch<T>(f: impl FnOnce() -> T) -> Result<T, Panic> {
         Ok(v) => Ok(v),
         Err(_) => {
             let (loc, msg) = LAST.with(|l| l.borrow_mut().take()).unwrap_or(("?".into(), "?".into()));
-            let site = loc.strip_prefix("/repo/").unwrap_or(&loc).to_string();
+            let site = loc.find("/repo/crates/").map_or(loc.as_str(), |i| &loc[i + 6..]).to_string();
             // registry paths: keep crate-relative tail
             let site = match site.find("/registry/src/") {
                 Some(i) => site[i + 14..].splitn(2, '/').nth(1).unwrap_or(&site).to_string(),
